@@ -117,6 +117,46 @@ def rename_in_source(text: str, fn: ast.AST, names: Set[str]) -> str:
     return "\n".join(lines)
 
 
+class _NegateIf(ast.NodeTransformer):
+    """if c: A else: B  ->  if not (c): B else: A   (only plain if/else, not elif chains)"""
+
+    def __init__(self):
+        self.count = 0
+
+    def visit_FunctionDef(self, node):
+        self.generic_visit(node)
+        return node
+
+    def visit_If(self, node):
+        self.generic_visit(node)
+        if node.orelse and not (len(node.orelse) == 1 and isinstance(node.orelse[0], ast.If)):
+            # do not touch 'if' statements that are themselves the elif part of a chain (handled through their parent)
+            self.count += 1
+            return ast.copy_location(ast.If(test=ast.UnaryOp(op=ast.Not(), operand=node.test), body=node.orelse, orelse=node.body), node)
+        return node
+
+
+def rewrite_function(text: str, fn: ast.AST, mode: str) -> Tuple[Optional[str], int]:
+    """Replace the source of fn by a transformed, re-generated version (ast.unparse).  mode: 'unparse' | 'negate-if'."""
+    import copy
+    new_fn = copy.deepcopy(fn)
+    n = 1
+    if mode == "negate-if":
+        tr = _NegateIf()
+        new_fn.body = [tr.visit(st) for st in new_fn.body]
+        n = tr.count
+        if n == 0:
+            return None, 0
+    ast.fix_missing_locations(new_fn)
+    code = ast.unparse(new_fn)
+    lines = text.split("\n")
+    first = min([fn.lineno] + [d.lineno for d in fn.decorator_list])
+    indent = " " * fn.col_offset
+    new_lines = [indent + l if l.strip() else l for l in code.split("\n")]
+    out = lines[:first - 1] + new_lines + lines[fn.end_lineno:]
+    return "\n".join(out), n
+
+
 def make_scratch() -> str:
     d = tempfile.mkdtemp(prefix="verif_alpha_")
     os.makedirs(os.path.join(d, "python"))
@@ -136,10 +176,17 @@ def probe(pid: str, entry: str) -> Tuple[str, str, int, str, int]:
         fn = find_function(tree, qual)
         if fn is None:
             return pid, entry, -1, "function not found", 0
-        names = eligible_locals(fn)
-        if not names:
-            return pid, entry, -2, "no eligible locals", 0
-        new = rename_in_source(text, fn, names)
+        mode = os.environ.get("ALPHA_MODE", "rename")
+        if mode == "rename":
+            names = eligible_locals(fn)
+            if not names:
+                return pid, entry, -2, "no eligible locals", 0
+            new = rename_in_source(text, fn, names)
+        else:
+            new, cnt = rewrite_function(text, fn, mode)
+            if new is None:
+                return pid, entry, -2, "nothing to transform", 0
+            names = range(cnt)
         try:
             compile(new, path, "exec")
         except SyntaxError as e:
